@@ -21,6 +21,22 @@ MPD_TAGS = {
     "Comment", "Disc", "Label", "MUSICBRAINZ_ARTISTID", "MUSICBRAINZ_ALBUMID", "MUSICBRAINZ_ALBUMARTISTID",
     "MUSICBRAINZ_TRACKID", "MUSICBRAINZ_RELEASEGROUPID", "MUSICBRAINZ_RELEASETRACKID", "MUSICBRAINZ_WORKID",
 }
+# Which public variant denotes which protocol name.  For plain tags the variant is spelled like the name; the MusicBrainz
+# variants are named after what the identifier is in MusicBrainz' own terminology (crate documentation of `Tag`; MPD's
+# `musicbrainz_trackid` is the *recording* id, `musicbrainz_releasetrackid` the *track* id, `albumid` the release id,
+# `albumartistid` the release-artist id).  Reviewed against the MPD protocol reference (tags) and the Picard tag mapping.
+# A variant unknown to this table (added later) is recorded as "not decided".
+TAG_REFERENCE = {
+    "MusicBrainzArtistId": "MUSICBRAINZ_ARTISTID", "MusicBrainzRecordingId": "MUSICBRAINZ_TRACKID",
+    "MusicBrainzReleaseArtistId": "MUSICBRAINZ_ALBUMARTISTID", "MusicBrainzReleaseId": "MUSICBRAINZ_ALBUMID",
+    "MusicBrainzTrackId": "MUSICBRAINZ_RELEASETRACKID", "MusicBrainzWorkId": "MUSICBRAINZ_WORKID",
+    "MusicBrainzReleaseGroupId": "MUSICBRAINZ_RELEASEGROUPID",
+}
+SUBSYSTEM_REFERENCE = {
+    "Database": "database", "Message": "message", "Mixer": "mixer", "Mount": "mount", "Neighbor": "neighbor", "Options": "options",
+    "Output": "output", "Partition": "partition", "Player": "player", "Queue": "playlist", "Sticker": "sticker",
+    "StoredPlaylist": "stored_playlist", "Subscription": "subscription", "Update": "update",
+}
 MPD_SUBSYSTEMS = {
     "database", "update", "stored_playlist", "playlist", "player", "mixer", "output", "options", "partition",
     "sticker", "subscription", "message", "neighbor", "mount",
@@ -268,6 +284,13 @@ def tag_rules(rep, prog, cfg):
                   % (v, n, got, v), detail={"name": n})
         rep.check(n in MPD_TAGS, rule, "%s/vocabulary %s" % (cfg, v), a.loc(a.span),
                   "protocol name %r of Tag::%s is not an MPD tag name" % (n, v))
+        want = TAG_REFERENCE.get(v, v if v in MPD_TAGS else None)
+        if want is None:
+            rep.note("tag_variants_not_in_reference_" + cfg, v)
+        else:
+            rep.check(n == want, rule, "%s/Tag::%s denotes %s" % (cfg, v, want), a.loc(a.span),
+                      "Tag::%s is sent and parsed as %r; the documented protocol name of that tag is %r (a request built with it would ask the "
+                      "server about a different tag)" % (v, n, want))
     # names distinct
     names = [table[v] for v in named if v in table]
     rep.check(len({n.lower() for n in names}) == len(names), rule, cfg + "/as_str names distinct", a.loc(a.span),
@@ -321,6 +344,11 @@ def subsystem_rules(rep, prog, cfg):
                   % (n, v, by_lit.get(n)), detail={"name": n})
         rep.check(n in MPD_SUBSYSTEMS, rule, "%s/vocabulary %s" % (cfg, v), a.loc(a.span),
                   "protocol name %r of Subsystem::%s is not an MPD idle subsystem" % (n, v))
+        if v in SUBSYSTEM_REFERENCE:
+            rep.check(n == SUBSYSTEM_REFERENCE[v], rule, "%s/Subsystem::%s denotes %s" % (cfg, v, SUBSYSTEM_REFERENCE[v]), a.loc(a.span),
+                      "Subsystem::%s stands for the protocol name %r, the documented name is %r" % (v, n, SUBSYSTEM_REFERENCE[v]))
+        else:
+            rep.note("subsystem_variants_not_in_reference_" + cfg, v)
     for lit, vs in by_lit.items():
         rep.check(len(vs) == 1 and table.get(vs[0]) == lit, rule, "%s/from_frame %s -> as_str" % (cfg, lit), pbody.loc(pbody.span),
                   "from_frame maps %r to %s whose protocol name is %r" % (lit, vs, [table.get(x) for x in vs]))
